@@ -47,7 +47,10 @@ macro_rules! chkr {
 '''
 
 
-def body(optional):
+def body(optional, std=True):
+    if optional is True:
+        optional = {'hashbrown', 'indexmap', 'slotmap', 'smallvec', 'enum_map'}
+    optional = optional or set()
     L = []
     a = L.append
     a("fn run<'gc>(mc: &Mutation<'gc>) -> Vec<String> {")
@@ -137,6 +140,8 @@ def body(optional):
     a('    chk!(f, "Box<Result<(u8,Gc),[GcWeak;2]>>/Err", Box::new(Err::<(u8, S), [W; 2]>([w[3], w[4]])), [], [w[3], w[4]], true);')
     a('    chk!(f, "HashMap<u8,Vec<Gc>>", HashMap::<u8, Vec<S>>::from_iter([(1u8, vec![s[0], s[1]]), (2, vec![s[2]])]), [s[0], s[1], s[2]], [], true);')
     a('    chk!(f, "duplicates", vec![s[0], s[0], s[0]], [s[0], s[0], s[0]], [], true);')
+    if not std:
+        L[:] = [l for l in L if "HashMap" not in l and "HashSet" not in l]
     if optional:
         for n in range(0, 4):
             sp = ", ".join(f"s[{i}]" for i in range(n))
@@ -160,6 +165,10 @@ def body(optional):
         a('    chk!(f, "EnumMap<bool,Gc>", enum_map::EnumMap::<bool, S>::from_array([s[0], s[1]]), [s[0], s[1]], [], true);')
         a('    chk!(f, "EnumMap<bool,Option<GcWeak>>", enum_map::EnumMap::<bool, Option<W>>::from_array([Some(w[0]), None]), [], [w[0]], true);')
         a('    chk!(f, "EnumMap<u8,Option<Gc>>/last", { let mut m = enum_map::EnumMap::<u8, Option<S>>::default(); m[255] = Some(s[3]); m[0] = Some(s[4]); m }, [s[3], s[4]], [], true);')
+    if optional and optional != {'hashbrown', 'indexmap', 'slotmap', 'smallvec', 'enum_map'}:
+        keep = {"hashbrown": "hashbrown::", "indexmap": "indexmap::", "slotmap": "slotmap::", "smallvec": "smallvec::", "enum_map": "enum_map::"}
+        drop = [v for k, v in keep.items() if k not in optional]
+        L[:] = [l for l in L if not any(d in l for d in drop)]
     a("    f")
     a("}")
     a(r'''
@@ -231,11 +240,26 @@ POS_TWIN = ["Gc<'gc, u32>", "Cell<u32>", "RefCell<String>", "&'static str", "Sta
 HASHER = "#[derive(Clone)]\nstruct H<'gc>(Gc<'gc, u32>);\nimpl<'gc> std::hash::BuildHasher for H<'gc> { type Hasher = std::collections::hash_map::DefaultHasher; fn build_hasher(&self) -> Self::Hasher { Default::default() } }\n"
 
 
+SINGLE = {"f_hashbrown": {"hashbrown"}, "f_indexmap": {"indexmap"}, "f_slotmap": {"slotmap"}, "f_smallvec": {"smallvec"}, "f_enum_map": {"enum_map"}, "f_tracing": set(), "nostd": set()}
+
+
 def generate(tier, features="allf"):
     spec = generate_one(tier, features)
     if features == "allf":
         spec["more"] = [generate_one(tier, None)]
+        if tier == "thorough":
+            for f, crates in SINGLE.items():
+                spec["more"].append(single_feature(f, crates))
     return spec
+
+
+def single_feature(feat, crates):
+    std = feat != "nostd"
+    src = HEAD + body(set(crates), std)
+    if not std:
+        src = src.replace("use std::collections::{BTreeMap, BTreeSet, BinaryHeap, HashMap, HashSet, LinkedList, VecDeque};", "use std::collections::{BTreeMap, BTreeSet, BinaryHeap, LinkedList, VecDeque};")
+    n = src.count("chk!(") + src.count("chkr!(")
+    return {"probes": [Probe(f"exact/{feat}", src, "run", group="exact")], "features": feat, "externs": ("gc_arena",) + tuple(sorted(crates)), "container_instances": n}
 
 
 def generate_one(tier, features):
